@@ -12,6 +12,16 @@ CLAIMED = {
    note="Trusted: Coq kernel, translator, correspondence harness, asyncio.StreamReader semantics as modelled (hmode), fake writer. "
         "TLS record processing is runtime; the TLS hand-over is a recorded open finding (see DESIGN.md).",
    technique="Coq proof (induction over arrival histories) + translator facts + vm_compute correspondence"),
+ "C18": dict(
+   text="Coq theorems over the registry model (Model/ConnId.v) for every sequence width W>0 and prefix: a fresh id exists whenever "
+        "fewer than W connections are live (the search loop provably terminates within |live|+1 steps), the invariant 'pairwise "
+        "distinct, all with the configured prefix' holds after every add/remove history (induction over the op list), a full registry "
+        "refuses and recovers after any removal, ids are 32-bit with upper half server_id mod 2^16; widths, the server-id default rule "
+        "and the function skeletons are regenerated from control.py/utils.py/server.py; op-by-op correspondence with LocalControl.",
+   design="7/C18",
+   note="Trusted: Coq kernel, translator, correspondence harness. random.randint for an unconfigured server id is only range-checked; "
+        "the id seen in the handshake / CONNECTION_ID() / KILL is checked at the wire level by the harness (test, not theorem).",
+   technique="Coq proof (invariant by induction over add/remove histories, pigeonhole for termination) + translator facts + vm_compute correspondence"),
 }
 
 PENDING = {}
